@@ -43,7 +43,8 @@ import (
 type cfgSpec struct {
 	Deny          []string `json:"deny,omitempty"`
 	Override      []string `json:"override,omitempty"`
-	Repl          string   `json:"repl,omitempty"` // replacement kind: builtin | module
+	Refused       []string `json:"refused_override,omitempty"` // dotted names overridden with a value risor refuses (a Go func)
+	Repl          string   `json:"repl,omitempty"`             // replacement kind: builtin | module
 	NoDefaults    bool     `json:"no_defaults,omitempty"`
 	OverrideFirst bool     `json:"override_first,omitempty"` // option order
 	Host          bool     `json:"host_global,omitempty"`    // adds the host global c11_host
@@ -92,6 +93,9 @@ func (c cfgSpec) String() string {
 	for _, o := range c.Override {
 		p = append(p, "WithGlobalOverride("+o+", "+c.Repl+" c11_replacement)")
 	}
+	for _, o := range c.Refused {
+		p = append(p, "WithGlobalOverride("+o+", a Go func)")
+	}
 	if c.ReuseVM {
 		p = append(p, "[on a VM that already ran under the default configuration]")
 	}
@@ -135,6 +139,9 @@ func (c cfgSpec) options() (opts []risor.Option, repl object.Object) {
 		for _, o := range c.Override {
 			over = append(over, risor.WithGlobalOverride(o, repl))
 		}
+	}
+	for _, o := range c.Refused {
+		over = append(over, risor.WithGlobalOverride(o, func(s string) string { return s }))
 	}
 	if c.OverrideFirst {
 		opts = append(append(opts, over...), deny...)
